@@ -197,6 +197,7 @@ def scenarios(tier, seed):
         thorough.append(("descent", {"minimizer": mname, "limit": 3, "max_it": 1, "max_zoom": 1}))
     quick.append(("bfgs", {"n": 2, "hist": 2, "steps": 2}))
     quick.append(("bfgs", {"n": 2, "hist": 1, "steps": 2}))
+    quick.append(("bfgs", {"n": 2, "hist": 2, "steps": 4}))       # the circular history buffer has wrapped at the last point
     thorough.append(("bfgs", {"n": 2, "hist": 2, "steps": 3}))
     thorough.append(("bfgs", {"n": 2, "hist": 1, "steps": 3}))
     thorough.append(("bfgs", {"n": 2, "hist": 1, "steps": 2, "descent": True}))     # best effort (degree-6 NRA)
@@ -222,7 +223,7 @@ META = {
                           "nifty.cl.minimization.descent_minimizers.{DescentMinimizer.__call__,SteepestDescent,RelaxedNewton,L_BFGS.get_descent_direction,VL_BFGS.get_descent_direction,_InformationStore}",
                           "nifty.cl.minimization.iteration_controllers.GradientNormController"],
     "bounds": {"line search": "(max_iterations, max_zoom_iterations) in {(1,1),(2,1),(3,1)} quick; zoom <= 3 thorough (best effort)",
-               "pixels": "1 (2 for a few)", "descent iterations": "<= 2 (3 thorough)", "BFGS": "dimension 2, history <= 2, <= 3 points"},
+               "pixels": "1 (2 for a few)", "descent iterations": "<= 2 (3 thorough)", "BFGS": "dimension 2, history <= 2, <= 4 points (the circular buffer wraps)"},
     "stubs": shims_cl.STUBS[:8] + ["the energy is an uninterpreted function (harness Energy subclass): every oracle answer is a fresh symbol"],
     "outside": ["interpolation denominators that are exactly zero (the code's ArithmeticError fall-backs; excluded by definedness side conditions)",
                 "NewtonCG's inner CG (C14)", "ScipyMinimizer", "more line-search iterations than the bound"],
